@@ -146,7 +146,7 @@ def c16(shape, choices, k, warm_rerun=False):
 
 
 # ------------------------------------------------------------------ C18
-def c18(i, j, typed, use_async, choices):
+def c18(i, j, typed, use_async, choices, second=None):
     """late assignment node_i.inputs.x = node_j.out (back edges and self edges included); the submission must end
     with outputs or an ordinary error within budgets derived from the code"""
     import pydra.engine.graph as G
@@ -165,18 +165,21 @@ def c18(i, j, typed, use_async, choices):
         return real(self, notsorted_list, predecessors)
 
     G.DiGraph._sorting = budgeted
-    R.FLAGS["late"] = None if i < 0 else (i, j)
+    R.FLAGS["late"] = None if i < 0 else ([(i, j)] + ([second] if second else []))
     d = E.scratch()
     res = err = None
     try:
-        task = D.LateAssign(x=1, typed=typed)
-        if use_async:
-            res, err, ev = S.run_async(task, d, choices)
-        else:
-            try:
-                res = task(cache_root=d, worker="debug")
-            except Exception as e:
-                err = e
+        with E.deadline(40):
+            task = D.LateAssign(x=1, typed=typed)
+            if use_async:
+                res, err, ev = S.run_async(task, d, choices)
+            else:
+                try:
+                    res = task(cache_root=d, worker="debug")
+                except Exception as e:
+                    err = e
+    except E.HangDetected as e:
+        err = S.BudgetExceeded(str(e))
     except Exception as e:
         err = e
     finally:
@@ -184,7 +187,9 @@ def c18(i, j, typed, use_async, choices):
         R.FLAGS.pop("late", None)
         E.cleanup(d)
     T.reach()
-    desc = "late assignment %s.x = %s.out (%s fields, %s loop)" % ("abc"[i] if i >= 0 else "-", "abc"[j], "typed" if typed else "Any", "async" if use_async else "sync")
+    desc = "late assignment %s.x = %s.out%s (%s fields, %s loop)" % ("abc"[i] if i >= 0 else "-", "abc"[j],
+                                                                      " and %s.x = %s.out" % ("abc"[second[0]], "abc"[second[1]]) if second else "",
+                                                                      "typed" if typed else "Any", "async" if use_async else "sync")
     if isinstance(err, S.BudgetExceeded):
         return "%s: the submission does not terminate (%s)" % (desc, err)
     if err is None and res is None:
